@@ -66,7 +66,8 @@ def tad_pipe():
     return _pipe["tad"]
 
 
-BUILD = dict(paid_final=G.paid_final, orphans=G.orphans, slow_rew=G.slow_rew, regroup=G.regroup, rew_ties=G.rew_ties, fig55=G.fig55, dead=G.dead_family, cyc=G.cyc, cyc2=G.cyc2, ec=G.ec, finals=G.finals, p2choice=G.p2choice,
+BUILD = dict(p1_final=G.p1_final, init_final=G.init_final, big_rewards=G.big_rewards, dup_actions=G.dup_actions, decimals=G.decimals,
+             tie_small=G.tie_small, all_live_orphan=G.all_live_orphan, p2_shared=G.p2_shared, paid_final=G.paid_final, orphans=G.orphans, slow_rew=G.slow_rew, regroup=G.regroup, rew_ties=G.rew_ties, fig55=G.fig55, dead=G.dead_family, cyc=G.cyc, cyc2=G.cyc2, ec=G.ec, finals=G.finals, p2choice=G.p2choice,
              lex=G.lex, ties=G.ties, ties_p2=G.ties_p2, nosol=G.nosol, unreach=G.unreach, slow_chain=G.slow_chain)
 
 
@@ -168,6 +169,11 @@ def _stopping_instances(tier):
         inst.append(("unreach", [w]))
     for o in (0, 1, 2):
         inst.append(("orphans", [o]))
+    inst += [("p1_final", [P1]), ("p1_final", [P2]), ("init_final", []), ("dup_actions", []), ("decimals", []), ("tie_small", []),
+             ("all_live_orphan", []), ("p2_shared", ["a"]), ("p2_shared", ["b"])]
+    for order in ([(0, 1, 2), (2, 1, 0), (1, 0, 2)] if tier == "quick" else list(itertools.permutations(range(3)))):
+        inst.append(("big_rewards", [P2, list(order)]))
+        inst.append(("big_rewards", [P1, list(order)]))
     return inst
 
 
@@ -336,6 +342,8 @@ def _pipe_rewards(sp, game, args, prune, focus):
         for s in states:
             if g.players[s] == PR or not ctl[s]:
                 continue
+            if len({a for a, _ in ctl[s]}) < len(ctl[s]):
+                continue        # repeated action names: decided by the concrete harness (pipe.final_concrete)
             succ = [w[t] for _, t in ctl[s]]
             ext = zmax(succ) if g.players[s] == P1 else zmin(succ)
             sp.prove(fin[s] == [a for a, _ in ctl[s] if a in fin[s]], "final strategy of state %d is not in transition order" % s)
@@ -392,7 +400,12 @@ def pipe_final(sp, game, args, prune):
     _pipe_rewards(sp, game, args, prune, ("C05",))
 
 
-@harness("pipe.diagnostics", props=["C14"], jobs=_rew_jobs, covers=["solved"], stubs=["logging -> sweep counter",
+def _diag_jobs(tier, seed):
+    # C14's premise: stopping games with absorbing final states and unambiguous action names
+    return [j for j in _rew_jobs(tier, seed) if j["game"] not in ("dup_actions", "init_final", "p1_final")]
+
+
+@harness("pipe.diagnostics", props=["C14"], jobs=_diag_jobs, covers=["solved"], stubs=["logging -> sweep counter",
          "max/min -> merging proxies"], bounds=_RB, assumes=_RA + ["no reward ties: competing successor rewards more than 8.1e-5 apart (assumed inside the query)"],
          desc="real solve(): with single-action final strategies the two diagnostic vectors equal the solutions of the linear "
               "systems 'reach probability under both final strategies' and 'reward under P1 final / P2 reachability strategy "
@@ -412,7 +425,7 @@ def _conc_jobs(tier, seed):
     return jobs
 
 
-@harness("pipe.final_concrete", props=["C05", "C02"], jobs=_conc_jobs, covers=["float_sum_tie", "p1_tie", "p2_tie"],
+@harness("pipe.final_concrete", props=["C05", "C02", "C06"], jobs=_conc_jobs, covers=["float_sum_tie", "p1_tie", "p2_tie"],
          stubs=["logging -> sweep counter"],
          bounds="all stopping template instances with concrete rewards (1 at the reward slots) plus exact reward ties reached through "
                 "different floating-point sums (0.7r+0.2r+0.1r vs r); everything runs natively in IEEE doubles; oracle: exact max-min "
